@@ -1001,6 +1001,39 @@ theorem budget_never_turns_rejection_into_acceptance (cv : VKey → VSig → Lis
     (verifyRRSIGWork cv inPeriod supAlg tagOf keys g' zone m).1 = WRes.ok := by
   rw [verifyRRSIGWork_mono cv inPeriod supAlg tagOf keys g g' hle zone m (by rw [h]; simp), h]
 
+/-- **The governed walk is `VerifyRRSIG`.** The walk of `VerifyRRSIGWithWork`
+in the code's own order (RRsets by owner / type / class, signatures and
+candidate keys de-duplicated and sorted, early exits as written), whenever it
+ends without a work error, accepts exactly when the declarative `verifyRRSIG`
+of `verify_rrsig_ok_iff` does — provided the cryptographic verdict does not
+depend on the spelling of a key's owner beyond its identity (`hcv`) and
+`verifyOneSig` not on the spelling of a signature's owner and signer beyond
+theirs (`hsig`; both are how duplicates are collapsed in the code). Together
+with `governor_only_refuses` and `verify_rrsig_every_answer_authenticated`:
+whatever `VerifyRRSIGWithWork` accepts under any governor is authenticated. -/
+theorem governed_walk_is_verify_rrsig (cv : VKey → VSig → List VRec → Verdict) (inPeriod : VSig → Bool)
+    (supAlg : Nat → Bool) (tagOf : VKey → Nat) (keys : List VKey) (g : Gov) (zone : Bytes) (m : VMsg)
+    (hcv : ∀ k k' sig set, keyIdent k = keyIdent k' → cv k sig set = cv k' sig set)
+    (hsig : ∀ s s' set, sigIdent s = sigIdent s' →
+      verifyOneSig cv inPeriod supAlg tagOf keys set s = verifyOneSig cv inPeriod supAlg tagOf keys set s')
+    (h : (verifyRRSIGWork cv inPeriod supAlg tagOf keys g zone m).1 ≠ WRes.work) :
+    (verifyRRSIGWork cv inPeriod supAlg tagOf keys g zone m).1 = WRes.ok ↔
+      verifyRRSIG (verifyOneSig cv inPeriod supAlg tagOf keys) keys.length zone m = true :=
+  verifyRRSIGWork_verdict cv inPeriod supAlg tagOf keys g zone m hcv hsig h
+
+theorem governed_acceptance_is_authenticated (cv : VKey → VSig → List VRec → Verdict) (inPeriod : VSig → Bool)
+    (supAlg : Nat → Bool) (tagOf : VKey → Nat) (keys : List VKey) (g : Gov) (zone : Bytes) (m : VMsg)
+    (hcv : ∀ k k' sig set, keyIdent k = keyIdent k' → cv k sig set = cv k' sig set)
+    (hsig : ∀ s s' set, sigIdent s = sigIdent s' →
+      verifyOneSig cv inPeriod supAlg tagOf keys set s = verifyOneSig cv inPeriod supAlg tagOf keys set s')
+    (h : (verifyRRSIGWork cv inPeriod supAlg tagOf keys g zone m).1 = WRes.ok) :
+    ∀ r ∈ m.answer, exempt (lower (fqdn zone)) m r = false →
+      nameInZone (lower r.name) (lower (fqdn zone)) = true ∧
+      ∃ s ∈ m.sigs, ∃ k ∈ keys, sigKey s = rrKey r ∧ inPeriod s = true ∧ supAlg s.alg = true ∧
+        usableSignatureCandidate tagOf s k = true ∧ cv k s (groupOf (lower (fqdn zone)) m r) = Verdict.ok :=
+  verify_rrsig_every_answer_authenticated cv inPeriod supAlg tagOf keys zone m
+    ((verifyRRSIGWork_verdict cv inPeriod supAlg tagOf keys g zone m hcv hsig (by rw [h]; simp)).mp h)
+
 -- one RRset, two candidate keys with the signature's tag, the second verifies: a budget of one operation
 -- refuses, a budget of two accepts after two operations
 example :
